@@ -32,10 +32,24 @@ Definition successes (l : list (option profile)) : list profile :=
 (* combineProfiles: CompatibilizeSampleTypes and ScaleProfiles are the identity for inputs with equal
    sample types and units (what the generators produce); ONE profile is handed on as it is -- not
    merged, hence not compacted -- otherwise profile.Merge *)
+(* CompatibilizeSampleTypes counts sample types BY NAME over all profiles and keeps those counted once
+   per profile: with equal sample type lists that is every type iff the names are pairwise distinct;
+   when none is left (all names duplicated, or no sample type at all) combineProfiles fails -- also
+   for a single profile.  (Lists where only some names repeat lose columns: C07's, not generated.) *)
+Fixpoint nodup_str (l : list string) : bool :=
+  match l with [] => true | a :: r => negb (existsb (String.eqb a) r) && nodup_str r end.
+Definition types_combinable (p : profile) : bool :=
+  match p_sampletype p with [] => false | l => nodup_str (map vt_type l) end.
+
 Definition combine (ps : list profile) : mres :=
   match ps with
-  | [p] => MOk p
-  | _ => merge ps
+  | [] => MErr
+  | p0 :: _ =>
+      if negb (types_combinable p0) then MErr
+      else match ps with
+           | [p] => MOk p
+           | _ => merge ps
+           end
   end.
 
 Inductive gres := GNone | GOk (p : profile) | GErr.
